@@ -193,6 +193,7 @@ def check(run, replay=None):
     known = load_known()
     tables = []
     drift = 0
+    compared = 0
     drift_samples = []
     preds = {}
     mc_exhaustive = []
@@ -207,7 +208,7 @@ def check(run, replay=None):
             for c in r.cases:
                 t = {"services": c["services"], "reqs": c["reqs"], "options": bool(cfgp.get("options"))}
                 tables.append(t)
-                preds[len(tables)] = c["pred"]
+                preds[len(tables)] = (c["pred"], c.get("predj"))
     else:
         tables = [replay["table"]]
     plan = dict(cfgp["plan"])
@@ -257,14 +258,18 @@ def check(run, replay=None):
                     idx = next(i for i, rq in enumerate(tcase["reqs"]) if all(rq[k] == ev["req"][k] for k in ("m", "path", "ct", "acc", "clen", "clh", "conds")))
                 except StopIteration:
                     continue
-                pred = {tuple(x) for x in preds[tid][idx]}
-                for o in ev["outs"]:
-                    if ["curly", 0, 0, "D"] in o["vs"]:
-                        got = (o["k"], o["ws"], o["rt"], 200 if o["k"] == "route" else o["st"])
-                        if pred and got not in pred:
-                            drift += 1
-                            if len(drift_samples) < 3:
-                                drift_samples.append({"table": tcase["services"], "req": ev["req"], "real": got, "layerB": sorted(pred)})
+                for router, plist in (("curly", preds[tid][0]), ("jsr311", preds[tid][1])):
+                    if not plist:
+                        continue
+                    pred = {tuple(x) for x in plist[idx]}
+                    for o in ev["outs"]:
+                        if [router, 0, 0, "D"] in o["vs"]:
+                            got = (o["k"], o["ws"], o["rt"], 200 if o["k"] == "route" else o["st"])
+                            compared += 1
+                            if pred and got not in pred:
+                                drift += 1
+                                if len(drift_samples) < 3:
+                                    drift_samples.append({"router": router, "table": tcase["services"], "req": ev["req"], "real": got, "layerB": sorted(pred)})
     clean = [{k: v for k, v in ev.items() if not k.startswith("_")} for ev in all_events]
     shards = shards_by_table(clean, NCPU)
     mismatches, consumed = validate_shards(run, "RoutingTrace", shards,
@@ -344,6 +349,6 @@ def check(run, replay=None):
         "tables": ntables, "request_events": nreq, "probe_events": nprobe,
         "events_consumed_by_trace_spec": consumed,
         "trace_counters": totals,
-        "model_drift": {"layerB_vs_real_disagreements": drift, "samples": drift_samples},
+        "model_drift": {"layerB_predictions_compared_with_real_code": compared, "disagreements": drift, "samples": drift_samples},
     }
     return finish(run, "model_checking", coverage, ASSUMPTIONS)
